@@ -107,6 +107,11 @@ type world struct {
 	height uint64 // external block height counter for claims
 	voting int
 	bfCases []string
+	mode    string    // "plain" | "noise" (extra non-committed activity: Simulate/CheckTx) | "restart" (new app object on the same DB now and then)
+	nr      *lib.Rand // driver-side randomness of the mode (never influences the history)
+	noise   [][]byte  // transactions that are only simulated / check-tx'ed in noise mode, never delivered
+	execd   map[string]uint64
+	restarts, noises int
 	migN   int
 	cur    []OpRes
 	stats  map[string]int
@@ -130,10 +135,11 @@ func (w *world) count(k string) {
 	w.stats[k]++
 }
 
-func newWorld(seed int64, histSeed int64) *world {
+func newWorld(seed int64, histSeed int64, mode string) *world {
 	c := lib.NewChain(seed, 4, nil)
 	w := &world{c: c, r: lib.NewRand(histSeed), chains: []string{"eth", "bsc", "tron"}, xs: map[string]*lib.XChain{}, stats: map[string]int{}, height: 1000,
-		seqOff: map[string]uint64{}, backlog: map[string][]claimMaker{}, base: map[string]uint64{}}
+		seqOff: map[string]uint64{}, backlog: map[string][]claimMaker{}, base: map[string]uint64{},
+		mode: mode, nr: lib.NewRand(histSeed ^ 0x5eed), execd: map[string]uint64{}}
 	for i := 0; i < 6; i++ {
 		u := lib.EthKey(seed, "c17-user", i)
 		w.users = append(w.users, u)
@@ -161,6 +167,8 @@ func newWorld(seed int64, histSeed int64) *world {
 	t1, err := c.SetupModuleOwned("USDV", 1, w.chains, "channel-0")
 	lib.Must(err)
 	w.toks = append(w.toks, t1)
+	openTransferChannel(c, "channel-0")
+	mintIBCVouchers(c, t1.IBCDenom, 1_000_000_000_000)
 	t2, err := c.SetupExternal("EXTT", 2, w.users[0], []string{"eth", "bsc"})
 	lib.Must(err)
 	w.toks = append(w.toks, t2)
@@ -236,30 +244,89 @@ func (w *world) op(kind string, f func(ctx sdk.Context) ([]byte, error)) bool {
 // delivered by the real FinalizeBlock (decode, ValidateBasic, the whole ante chain with signature
 // verification and fee deduction, message routing); its result is read from the block response.
 func (w *world) tx(kind string, signer lib.Key, msgs ...sdk.Msg) {
-	c := w.c
-	app := c.App
-	acc := app.AccountKeeper.GetAccount(c.Ctx, signer.Acc())
+	acc := w.c.App.AccountKeeper.GetAccount(w.c.Ctx, signer.Acc())
 	if acc == nil {
 		w.cur = append(w.cur, OpRes{Kind: "tx:" + kind, Code: "no-account"})
 		return
 	}
 	seq := acc.GetSequence() + w.seqOff[signer.Acc().String()]
 	w.seqOff[signer.Acc().String()]++
-	txCfg := app.GetTxConfig()
+	w.txs = append(w.txs, w.signTx(signer, acc.GetAccountNumber(), seq, msgs...))
+	w.txKinds = append(w.txKinds, kind)
+}
+
+// noiseTx: a valid signed transaction that is NEVER delivered: in noise mode it is simulated and
+// check-tx'ed between blocks (what a node serving wallets does), in the other modes it is dropped.
+// Built in every mode so that the history's PRNG stays in step.
+func (w *world) noiseTx(signer lib.Key, msgs ...sdk.Msg) {
+	acc := w.c.App.AccountKeeper.GetAccount(w.c.Ctx, signer.Acc())
+	if acc == nil {
+		return
+	}
+	w.noise = append(w.noise, w.signTx(signer, acc.GetAccountNumber(), acc.GetSequence()+w.seqOff[signer.Acc().String()], msgs...))
+}
+
+func (w *world) signTx(signer lib.Key, accNum, seq uint64, msgs ...sdk.Msg) []byte {
+	c := w.c
+	txCfg := c.App.GetTxConfig()
 	b := txCfg.NewTxBuilder()
 	lib.Must(b.SetMsgs(msgs...))
 	b.SetGasLimit(3_000_000)
 	b.SetFeeAmount(sdk.NewCoins(sdk.NewCoin(fxtypes.DefaultDenom, sdkmath.NewInt(12).MulRaw(1e18))))
 	mode := signing.SignMode_SIGN_MODE_DIRECT
 	lib.Must(b.SetSignatures(signing.SignatureV2{PubKey: signer.Priv.PubKey(), Data: &signing.SingleSignatureData{SignMode: mode}, Sequence: seq}))
-	sd := authsigning.SignerData{ChainID: c.Ctx.ChainID(), AccountNumber: acc.GetAccountNumber(), Sequence: seq, PubKey: signer.Priv.PubKey(), Address: signer.Acc().String()}
+	sd := authsigning.SignerData{ChainID: c.Ctx.ChainID(), AccountNumber: accNum, Sequence: seq, PubKey: signer.Priv.PubKey(), Address: signer.Acc().String()}
 	sig, e := clienttx.SignWithPrivKey(c.Ctx, mode, sd, b, signer.Priv, txCfg, seq)
 	lib.Must(e)
 	lib.Must(b.SetSignatures(sig))
 	bz, e := txCfg.TxEncoder()(b.GetTx())
 	lib.Must(e)
-	w.txs = append(w.txs, bz)
-	w.txKinds = append(w.txKinds, kind)
+	return bz
+}
+
+// nonCommitted: activity that must not influence block execution.  noise mode: every queued and every
+// noise transaction is simulated and check-tx'ed (on the app's check/simulate state: branches that are
+// dropped).  Results are ignored and never recorded.
+func (w *world) nonCommitted() {
+	noise := w.noise
+	w.noise = nil
+	if w.mode != "noise" {
+		return
+	}
+	run := func(bz []byte) {
+		defer func() { _ = recover() }()
+		if w.nr.Chance(70) {
+			_, _, _ = w.c.App.Simulate(bz)
+		}
+		if w.nr.Chance(50) {
+			_, _ = w.c.App.CheckTx(&abci.RequestCheckTx{Tx: bz, Type: abci.CheckTxType_New})
+		}
+		w.noises++
+	}
+	for _, bz := range noise {
+		run(bz)
+	}
+	for _, bz := range w.txs {
+		if w.nr.Chance(30) {
+			run(bz)
+		}
+	}
+}
+
+// maybeRestart (restart mode): right after a commit, now and then, a new application object is built on
+// the same database: whatever lived only in the old object's memory is gone.
+func (w *world) maybeRestart() string {
+	if w.mode != "restart" || !w.nr.Chance(30) {
+		return ""
+	}
+	if err := w.c.Restart(); err != nil {
+		return err.Error()
+	}
+	for _, ch := range w.chains {
+		w.xs[ch].Keeper = w.c.XKeeper(ch)
+	}
+	w.restarts++
+	return ""
 }
 
 func (w *world) evm(ctx sdk.Context, from common.Address, to common.Address, value *big.Int, data []byte) ([]byte, error) {
@@ -277,12 +344,15 @@ func (w *world) endBlock(dt time.Duration) BlockRes {
 	c := w.c
 	br := BlockRes{Ops: w.cur}
 	w.cur = nil
+	w.nonCommitted()
 	txs, kinds := w.txs, w.txKinds
 	w.txs, w.txKinds, w.seqOff = nil, nil, map[string]uint64{}
 	resp, err := c.NextBlockResp(dt, txs)
 	br.Height = c.Height
 	if err != nil {
 		br.Err = err.Error()
+	} else if e := w.maybeRestart(); e != "" {
+		br.Err = "restart: " + e
 	}
 	if resp != nil {
 		br.AppHash = hex.EncodeToString(resp.AppHash)
@@ -407,9 +477,16 @@ func (w *world) step() {
 		_, a := w.tokOn(ch)
 		amt := sdkmath.NewInt(1_000 + r.Int63n(5_000_000))
 		h := w.height
-		w.observe("SendToFxClaim", ch, func(n uint64) crosschaintypes.ExternalClaim {
+		target, kind := "", "SendToFxClaim"
+		if r.Chance(35) { // onward over IBC: token with an IBC alias on the open transfer channel
+			if ia := w.toks[1].Alias(ch); ia != nil {
+				a = ia
+				target, kind = hex.EncodeToString([]byte("px/transfer/"+w.toks[1].IBCChannel)), "SendToFxClaim(ibc)"
+			}
+		}
+		w.observe(kind, ch, func(n uint64) crosschaintypes.ExternalClaim {
 			return &crosschaintypes.MsgSendToFxClaim{EventNonce: n, BlockHeight: h, TokenContract: a.Contract, Amount: amt,
-				Sender: lib.ExternalAccount(c.Seed, ch, 3), Receiver: u.Acc().String(), TargetIbc: ""}
+				Sender: lib.ExternalAccount(c.Seed, ch, 3), Receiver: u.Acc().String(), TargetIbc: target}
 		})
 	case k < 28: // bridge out (real tx)
 		ch := w.pickChain()
@@ -747,6 +824,55 @@ func (w *world) votes() {
 	}
 }
 
+// executePending: observed SendToFx / BridgeCall claims wait in the pending queue until somebody executes them
+// through the crosschain precompile's executeClaim (in nonce order, a few per block)
+func (w *world) executePending() {
+	c, r := w.c, w.r
+	for _, ch := range w.chains {
+		x := w.xs[ch]
+		last := x.Keeper.GetLastObservedEventNonce(c.Ctx)
+		for n, done := w.execd[ch]+1, 0; n <= last && done < 6; n++ {
+			w.execd[ch] = n
+			if _, pending := x.Keeper.GetPendingExecuteClaim(c.Ctx, n); !pending {
+				continue
+			}
+			if r.Chance(8) { // left in the queue for good
+				continue
+			}
+			done++
+			nonce, caller := n, w.users[r.Pick(len(w.users))]
+			w.op("pre:executeClaim/"+ch, func(ctx sdk.Context) ([]byte, error) {
+				data, e := crosschainprecompile.NewExecuteClaimMethod(nil).PackInput(crosschaintypes.ExecuteClaimArgs{Chain: ch, EventNonce: new(big.Int).SetUint64(nonce)})
+				if e != nil {
+					return nil, e
+				}
+				return w.evm(ctx, caller.Hex(), lib.CrosschainPrecompile, nil, data)
+			})
+		}
+	}
+}
+
+// stakeTraffic: oracle stake changes that are NOT committed:
+//   - a two-message transaction whose first message (MsgAddDelegate) succeeds and whose second fails: baseapp
+//     rolls the whole transaction back (part of the history in every mode)
+//   - a valid MsgAddDelegate transaction that is only simulated / check-tx'ed (noise mode)
+func (w *world) stakeTraffic() {
+	c, r := w.c, w.r
+	ch := w.pickChain()
+	x := w.xs[ch]
+	o := x.Oracles[r.Pick(len(x.Oracles))]
+	add := &crosschaintypes.MsgAddDelegate{ChainName: ch, OracleAddress: o.Oracle.Acc().String(), Amount: lib.FX(3_000 + r.Int63n(30_000))}
+	if r.Chance(25) {
+		w.tx("AddDelegate+failing-2nd-msg/"+ch, o.Oracle, add,
+			&banktypes.MsgSend{FromAddress: o.Oracle.Acc().String(), ToAddress: w.users[0].Acc().String(), Amount: sdk.NewCoins(lib.FX(900_000_000))})
+	}
+	if r.Chance(60) {
+		o2 := x.Oracles[r.Pick(len(x.Oracles))]
+		w.noiseTx(o2.Oracle, &crosschaintypes.MsgAddDelegate{ChainName: ch, OracleAddress: o2.Oracle.Acc().String(), Amount: lib.FX(5_000 + r.Int63n(40_000))})
+	}
+	_ = c
+}
+
 // run executes the whole history and returns the per-block results
 func (w *world) run(blocks int) []BlockRes {
 	var out []BlockRes
@@ -758,6 +884,8 @@ func (w *world) run(blocks int) []BlockRes {
 			w.step()
 		}
 		w.votes()
+		w.executePending()
+		w.stakeTraffic()
 		for _, ch := range w.chains { // lagging oracles catch up
 			if len(w.backlog[ch]) > 0 && w.r.Chance(50) {
 				w.catchUp(ch)
